@@ -160,10 +160,43 @@ func TestVerif_C08_fullrt(t *testing.T) {
 					defer tm.Stop()
 				}
 				count := sc.Count
+				// Half of the cancelled searches have a consumer that stops reading at the
+				// cancellation (the usual "cancel and walk away" caller): the channel must be
+				// closed all the same, no producer may stay blocked sending on it.
+				abandon, abandoned := sc.CancelAt > 0 && c.Idx%2 == 0, false
+				c.Set("consumer_abandons_at_cancel", abandon)
 				switch sc.Op {
 				case "async":
-					for p := range n.D.FindProvidersAsync(ctx, sc.Cid, sc.Count) {
-						ems = append(ems, em{P: p.ID, VT: time.Now()})
+					ch := n.D.FindProvidersAsync(ctx, sc.Cid, sc.Count)
+					var gone <-chan struct{}
+					if abandon {
+						gone = ctx.Done()
+					}
+				consume:
+					for {
+						select {
+						case p, ok := <-ch:
+							if !ok {
+								break consume
+							}
+							ems = append(ems, em{P: p.ID, VT: time.Now()})
+						case <-gone:
+							abandoned = true
+							break consume
+						}
+					}
+					if abandoned {
+						time.Sleep(time.Second) // the bound of clause channel-closed
+						synctest.Wait()
+						select {
+						case p, ok := <-ch:
+							c.Check(!ok, "channel-closed", "the consumer stopped reading when the search was cancelled; 1 s later the channel is not closed: a producer was still blocked sending %s on it", vsim.Short(p.ID))
+						default:
+							c.Check(false, "channel-closed", "the consumer stopped reading when the search was cancelled; 1 s later the channel is still open")
+						}
+						for range ch { // let whatever is left conclude
+						}
+						c.Obs("abandoned_searches", 1)
 					}
 				case "sync":
 					count = sc.NC.Frt.K // documented: FindProviders asks for bucket-size providers
@@ -207,6 +240,12 @@ func TestVerif_C08_fullrt(t *testing.T) {
 					}
 				}
 				c.Obs("get_providers_requests", len(reqVT))
+				// (d') enough providers stored locally: nobody is asked at all (the local providers are
+				// yielded first; VT cannot order them against requests started at the same instant)
+				if count > 0 && len(localSet) >= count {
+					c.Check(len(reqVT) == 0, "no-request-after-count", "count=%d is covered by the %d locally stored providers, yet %d GET_PROVIDERS requests were sent", count, len(localSet), len(reqVT))
+					c.Obs("count_covered_locally", 1)
+				}
 				c.Obs("answers", len(answers))
 				c.Obs("providers_emitted", len(ems))
 				render := func(p peer.ID) string {
@@ -275,7 +314,9 @@ func TestVerif_C08_fullrt(t *testing.T) {
 					c.Check(len(missing) == 0, "count0-complete", "count=%d (%d yielded): providers reported before the search ended at +%v but never yielded: %v", count, len(distinct), closeVT.Sub(start), missing)
 				}
 				// (f) channel closed in time
-				if cancelled {
+				if abandoned {
+					// judged above
+				} else if cancelled {
 					c.Check(!closeVT.After(cancelVT.Add(time.Second)), "channel-closed", "channel closed %v after cancellation", closeVT.Sub(cancelVT))
 				} else {
 					last := vFrtLastWire(n, start, closeVT)
